@@ -1,5 +1,394 @@
-import HydroVerif.Model.C06
+/-
+C06 — property theorems (only). Model: `HydroVerif/Model/C06.lean` (+ the integer grid core of
+`Model/C07.lean`); the direction-code table is `HydroVerif.Generated.FlowDir.codes`, regenerated from
+`FLOWDIRCODE` in grid.py on every run: every theorem below is about that table and goes through
+`tableOK` / `codes_esri` (`Lemmas/C06Table.lean`, closed by `decide` on the table as it is now).
+Helper lemmas: `Lemmas/C06.lean`, `Lemmas/C06Bfs.lean`, `Lemmas/C07Grid.lean`.
+
+All theorems hold for every grid size (`0 < ncols`; a valid cell forces `0 < nrows`), every content of the
+flow-direction grid (any integer in any cell: the eight codes, 0, invalid codes), every outlet, every list of
+inlets (repeated entries, the outlet itself allowed), every buffer size and every start cell.
+-/
+import HydroVerif.Lemmas.C06
+
+set_option linter.unusedSectionVars false
+
 namespace HydroVerif.C06
-/-- placeholder while the harness is brought up -/
-theorem codes_length : HydroVerif.Generated.FlowDir.codes.length = 9 := by decide
+open HydroVerif.C07 HydroVerif.Generated.FlowDir
+
+variable {g : FlowGrid}
+
+/-! ### 1. upstream and downstream are inverse relations; sinks and exits are flagged -/
+
+/-- **inverse relations**: for valid cells `u`, `d`: `u` is listed upstream of `d` exactly when `d` is
+reported as the downstream cell of `u` -/
+theorem mem_upstream_iff (hc : 0 < g.ncols) {u d : Int} {us : List Int}
+    (hu : validCell g.nrows g.ncols u = true)
+    (hup : upstream codes g d = .ok us) :
+    u ∈ us ↔ downstream codes g u = .ok d := by
+  unfold upstream at hup
+  by_cases hd : validCell g.nrows g.ncols d = true
+  · rw [if_pos hd] at hup
+    cases hup
+    unfold downstream
+    rw [if_pos hu, mem_upstreamCells_iff tableOK hc hd u]
+    constructor
+    · rintro ⟨_, h⟩; rw [h]
+    · intro h; exact ⟨hu, by cases h; rfl⟩
+  · rw [if_neg hd] at hup; cases hup
+
+/-- every cell listed upstream is a valid cell, and is listed once -/
+theorem upstream_valid_nodup {d : Int} {us : List Int} (hup : upstream codes g d = .ok us) :
+    us.Nodup ∧ ∀ u ∈ us, validCell g.nrows g.ncols u = true := by
+  unfold upstream at hup
+  split at hup
+  · cases hup
+    exact ⟨upstreamCells_nodup d, fun u hu => upstreamCells_valid hu⟩
+  · cases hup
+
+/-- the row written to `idxup` has 9 entries: the cells found, then `-1` -/
+theorem upstreamRow_length {d : Int} {us : List Int} (hup : upstream codes g d = .ok us) :
+    (upstreamRow us).length = 9 ∧ ∀ x ∈ upstreamRow us, x ∈ us ∨ x = -1 := by
+  have hle : us.length ≤ 9 := by
+    unfold upstream at hup
+    split at hup
+    · cases hup
+      unfold upstreamCells
+      exact (List.length_filterMap_le _ _).trans (by simp)
+    · cases hup
+  constructor
+  · unfold upstreamRow; rw [List.length_append, List.length_replicate]; omega
+  · intro x hx
+    unfold upstreamRow at hx
+    rcases List.mem_append.1 hx with h | h
+    · exact Or.inl h
+    · exact Or.inr (List.eq_of_mem_replicate h)
+
+/-- cells off the grid are rejected by both routines, valid ones never are -/
+theorem upstream_downstream_guard (u : Int) :
+    (validCell g.nrows g.ncols u = false →
+      upstream codes g u = .error .badCell ∧ downstream codes g u = .error .badCell) ∧
+    (validCell g.nrows g.ncols u = true →
+      upstream codes g u = .ok (upstreamCells codes g u) ∧
+      downstream codes g u = .ok (downstreamCell codes g u)) := by
+  unfold upstream downstream
+  constructor <;> intro h <;> simp [h]
+
+/-- **sinks** (`fd = 0`) are flagged `-2` -/
+theorem downstream_sink {u : Int} (hu : validCell g.nrows g.ncols u = true) (hf : g.fd u = 0) :
+    downstream codes g u = .ok (-2) := by
+  unfold downstream; rw [if_pos hu, downstreamCell_sink hf]
+
+/-- **ESRI directions, off-grid exits**: a cell holding the code `2^m` of direction `m` (0 = east, counted
+clockwise) drains to the cell one step in that direction, or is flagged `-1` when that step leaves the grid -/
+theorem downstream_esri {u : Int} {m : Nat} (hm : m < 8)
+    (hu : validCell g.nrows g.ncols u = true) (hf : g.fd u = 2 ^ m) :
+    downstream codes g u = .ok
+      (if 0 ≤ rowOf g.ncols u + esriDy m ∧ rowOf g.ncols u + esriDy m < g.nrows ∧
+          0 ≤ colOf g.ncols u + esriDx m ∧ colOf g.ncols u + esriDx m < g.ncols
+       then (rowOf g.ncols u + esriDy m) * g.ncols + (colOf g.ncols u + esriDx m) else -1) := by
+  have hne : g.fd u ≠ 0 := by rw [hf]; positivity
+  have hpos : esriPos m < 9 := esriPos_lt m hm
+  have hcode : codes[esriPos m]? = some (g.fd u) := by rw [hf]; exact codes_esri m hm
+  unfold downstream
+  rw [if_pos hu, downstreamCell_of_code tableOK hpos hne hcode, neighbour_eq]
+  have hdx := esri_nbDx m hm
+  have hdy := esri_nbDy m hm
+  have hcen := esri_not_centre m hm
+  rw [hdx, hdy, if_neg hcen]
+  unfold cellOf
+  congr 1
+  by_cases h : 0 ≤ rowOf g.ncols u + esriDy m ∧ rowOf g.ncols u + esriDy m < g.nrows ∧
+      0 ≤ colOf g.ncols u + esriDx m ∧ colOf g.ncols u + esriDx m < g.ncols
+  · rw [if_pos h, if_pos ⟨h.2.2.1, h.2.2.2, h.1, h.2.1⟩]
+  · rw [if_neg h, if_neg (fun h' => h ⟨h'.2.2.1, h'.2.2.2, h'.1, h'.2.1⟩)]
+
+/-- **invalid codes**: a cell whose code is not in the table is flagged `-1` -/
+theorem downstream_invalid_code {u : Int} (hu : validCell g.nrows g.ncols u = true)
+    (hf : g.fd u ∉ codes) : downstream codes g u = .ok (-1) := by
+  have hne : g.fd u ≠ 0 := by
+    intro h; apply hf; rw [h]; decide
+  unfold downstream
+  rw [if_pos hu, downstreamCell_of_no_code hne]
+  intro j _ hcj
+  exact hf (List.mem_of_getElem? hcj)
+
+/-- the reply is always `-2`, `-1` or a valid cell; `-2` only for a sink -/
+theorem downstream_range {u d : Int} (h : downstream codes g u = .ok d) :
+    (d = -2 ∧ g.fd u = 0) ∨ (d = -1 ∧ g.fd u ≠ 0) ∨ (validCell g.nrows g.ncols d = true ∧ g.fd u ≠ 0) := by
+  unfold downstream at h
+  split at h
+  · cases h
+    rcases downstreamCell_cases (g := g) tableOK u with ⟨h0, h1⟩ | ⟨h0, _, h1⟩ | ⟨h0, j, _, _, h1⟩
+    · exact Or.inl ⟨h1, h0⟩
+    · exact Or.inr (Or.inl ⟨h1, h0⟩)
+    · by_cases hd : neighbour g.nrows g.ncols u j = -1
+      · exact Or.inr (Or.inl ⟨h1.trans hd, h0⟩)
+      · exact Or.inr (Or.inr ⟨h1 ▸ neighbour_valid rfl hd, h0⟩)
+  · cases h
+
+
+/-! ### 2. the delineated area is upstream reachability; cycles end in an error
+
+`Reaches codes g inlets k c o` (`Lemmas/C06.lean`): `c` reaches `o` in exactly `k` downstream steps, none
+of the `k` cells it leaves being an inlet — unfolded by `reaches_zero_iff` / `reaches_succ_iff` below. -/
+
+/-- what `Reaches` means, step by step -/
+theorem reaches_unfold {inlets : List Int} {k : Nat} {c o : Int} :
+    (Reaches codes g inlets 0 c o ↔ c = o) ∧
+    (Reaches codes g inlets (k + 1) c o ↔
+      validCell g.nrows g.ncols c = true ∧ c ∉ inlets ∧ 0 ≤ downstreamCell codes g c ∧
+        Reaches codes g inlets k (downstreamCell codes g c) o) :=
+  ⟨reaches_zero_iff, reaches_succ_iff⟩
+
+/-- **area = reachability, each cell once**: when `c_delineate_area` returns, its cells are exactly the
+outlet (provided something drains into it) plus every cell whose downstream chain reaches the outlet in
+`k ≥ 1` steps without passing through an inlet; no cell is listed twice; and the area is empty when no
+non-inlet cell drains into the outlet. -/
+theorem delineate_ok_iff (hc : 0 < g.ncols) {o nval : Int} {inlets A : List Int}
+    (h : delineateArea codes g o inlets nval = .ok A) :
+    A.Nodup ∧
+    (∀ c, c ∈ A ↔ (c = o ∧ ∃ u, Reaches codes g inlets 1 u o) ∨ ∃ k, 1 ≤ k ∧ Reaches codes g inlets k c o) ∧
+    ((∀ u, ¬ Reaches codes g inlets 1 u o) → A = []) := by
+  have inv := upStep_downStep_inv (g := g) tableOK hc inlets
+  have hmem := Bfs.mem_layer_iff (upStep codes g inlets) (downStep codes g inlets) inv o
+  rcases delineateArea_cases (codes := codes) (g := g) o inlets nval with
+    ⟨_, e⟩ | ⟨_, _, e⟩ | ⟨_, _, _, e⟩ | ⟨_, _, _, ⟨A', n, e, hstop, hne, hperm⟩ | ⟨e', e, _⟩⟩
+  · rw [e] at h; cases h
+  · rw [e] at h; cases h
+  · rw [e] at h; cases h
+  · rw [e] at h
+    cases h
+    have hempty : ∀ m, n + 1 ≤ m → Bfs.layer (upStep codes g inlets) o m = [] :=
+      fun m hm => Bfs.layer_empty_of_le _ o hstop hm
+    have hfirst : (∃ u, Reaches codes g inlets 1 u o) ↔ 1 ≤ n := by
+      constructor
+      · rintro ⟨u, hu⟩
+        by_contra hn
+        have := (hmem 1 u).2 hu
+        rw [hempty 1 (by omega)] at this
+        simp at this
+      · intro hn
+        have hl := hne 1 (by omega) hn
+        obtain ⟨u, hu⟩ := List.exists_mem_of_ne_nil _ hl
+        exact ⟨u, (hmem 1 u).1 hu⟩
+    refine ⟨?_, ?_, ?_⟩
+    · rw [hperm.nodup_iff]
+      by_cases hn : 1 ≤ n
+      · rw [if_pos hn]
+        exact Bfs.outlet_layers_nodup _ _ inv (fun d => upStep_nodup inlets d) o n hstop
+      · have hn0 : n = 0 := by omega
+        subst hn0
+        simp [Bfs.layersFrom_zero]
+    · intro c
+      rw [hperm.mem_iff, List.mem_append, Bfs.mem_layersFrom, hfirst]
+      constructor
+      · rintro (hc1 | ⟨m, hm1, _, hcm⟩)
+        · by_cases hn : 1 ≤ n
+          · rw [if_pos hn] at hc1
+            exact Or.inl ⟨by simpa using hc1, hn⟩
+          · rw [if_neg hn] at hc1; simp at hc1
+        · exact Or.inr ⟨m, hm1, (hmem m c).1 hcm⟩
+      · rintro (⟨rfl, hn⟩ | ⟨k, hk, hr⟩)
+        · left; rw [if_pos hn]; simp
+        · right
+          have hck := (hmem k c).2 hr
+          refine ⟨k, hk, ?_, hck⟩
+          by_contra hkn
+          rw [hempty k (by omega)] at hck
+          simp at hck
+    · intro hnone
+      have hn0 : n = 0 := by
+        by_contra hn
+        obtain ⟨u, hu⟩ := hfirst.2 (by omega)
+        exact hnone u hu
+      subst hn0
+      exact List.Perm.eq_nil (by simpa [Bfs.layersFrom_zero] using hperm)
+  · rw [e] at h; cases h
+
+/-- every cell of the area is a cell of the grid -/
+theorem delineate_cells_valid (hc : 0 < g.ncols) {o nval : Int} {inlets A : List Int}
+    (h : delineateArea codes g o inlets nval = .ok A) : ∀ c ∈ A, validCell g.nrows g.ncols c = true := by
+  intro c hcA
+  have hvo : validCell g.nrows g.ncols o = true := by
+    rcases delineateArea_cases (codes := codes) (g := g) o inlets nval with
+      ⟨_, e⟩ | ⟨_, _, e⟩ | ⟨_, hv, _⟩ | ⟨_, hv, _⟩
+    · rw [e] at h; cases h
+    · rw [e] at h; cases h
+    · exact hv
+    · exact hv
+  rcases ((delineate_ok_iff hc h).2.1 c).1 hcA with ⟨rfl, _⟩ | ⟨k, hk, hr⟩
+  · exact hvo
+  · obtain ⟨k', rfl⟩ : ∃ k', k = k' + 1 := ⟨k - 1, by omega⟩
+    exact (reaches_succ_iff.1 hr).1
+
+/-- **a flow cycle through the outlet ends in a buffer-exhaustion error** (never in a result, never in
+non-termination: the model is total and this is the exit it takes), whatever the buffer size -/
+theorem delineate_cycle_error (hc : 0 < g.ncols) {o nval : Int} {inlets : List Int} {p : Nat}
+    (hnval : 1 ≤ nval) (ho : validCell g.nrows g.ncols o = true)
+    (hin : ∀ m ∈ inlets, validCell g.nrows g.ncols m = true)
+    (hp : 1 ≤ p) (hcyc : Reaches codes g inlets p o o) :
+    ∃ e, delineateArea codes g o inlets nval = .error e ∧
+      (e = .areaFull ∨ e = .bufferFull ∨ e = .outletFull) := by
+  have inv := upStep_downStep_inv (g := g) tableOK hc inlets
+  rcases delineateArea_cases (codes := codes) (g := g) o inlets nval with
+    ⟨h1, _⟩ | ⟨_, h2, _⟩ | ⟨_, _, ⟨m, hm, hmv⟩, _⟩ | ⟨_, _, _, ⟨A', n, _, hstop, _, _⟩ | ⟨e', e, he⟩⟩
+  · omega
+  · rw [ho] at h2; cases h2
+  · rw [hin m hm] at hmv; cases hmv
+  · exact absurd hstop (Bfs.layer_ne_nil_of_cycle _ _ inv o (by omega) hcyc (n + 1))
+  · exact ⟨e', e, he⟩
+
+/-- **guards and error kinds**: `nval < 1`, an outlet off the grid, an inlet off the grid are rejected in
+that order; otherwise the call returns an area or one of the three buffer-exhaustion errors — the
+model's own recursion bound is never what stops it -/
+theorem delineate_outcomes (o : Int) (inlets : List Int) (nval : Int) :
+    (nval < 1 → delineateArea codes g o inlets nval = .error .badNval) ∧
+    (1 ≤ nval → validCell g.nrows g.ncols o = false →
+      delineateArea codes g o inlets nval = .error .badOutlet) ∧
+    (1 ≤ nval → validCell g.nrows g.ncols o = true → (∃ m ∈ inlets, validCell g.nrows g.ncols m = false) →
+      delineateArea codes g o inlets nval = .error .badInlet) ∧
+    delineateArea codes g o inlets nval ≠ .error .fuel ∧
+    delineateArea codes g o inlets nval ≠ .error .badCell := by
+  rcases delineateArea_cases (codes := codes) (g := g) o inlets nval with
+    ⟨h1, e⟩ | ⟨h1, h2, e⟩ | ⟨h1, h2, ⟨m, hm, hmv⟩, e⟩ | ⟨h1, h2, h3, ⟨A', n, e, _⟩ | ⟨e', e, he⟩⟩
+  · exact ⟨fun _ => e, fun h => (by omega), fun h => (by omega), (by rw [e]; simp), (by rw [e]; simp)⟩
+  · exact ⟨fun h => (by omega), fun _ _ => e, fun _ h => (by rw [h2] at h; cases h), (by rw [e]; simp),
+      (by rw [e]; simp)⟩
+  · exact ⟨fun h => (by omega), fun _ h => (by rw [h2] at h; cases h), fun _ _ _ => e, (by rw [e]; simp),
+      (by rw [e]; simp)⟩
+  · refine ⟨fun h => (by omega), fun _ h => (by rw [h2] at h; cases h), ?_, (by rw [e]; simp), (by rw [e]; simp)⟩
+    rintro _ _ ⟨m, hm, hmv⟩; rw [h3 m hm] at hmv; cases hmv
+  · refine ⟨fun h => (by omega), fun _ h => (by rw [h2] at h; cases h), ?_, ?_, ?_⟩
+    · rintro _ _ ⟨m, hm, hmv⟩; rw [h3 m hm] at hmv; cases hmv
+    · rw [e]; rcases he with rfl | rfl | rfl <;> simp
+    · rw [e]; rcases he with rfl | rfl | rfl <;> simp
+
+/-! ### 3. the hole-filled area contains the area -/
+
+/-- **filled ⊇ area** for any hole-filling routine that keeps the cells of the mask it is given (the only
+property of `scipy.ndimage.binary_fill_holes` used), on every delineated area -/
+theorem filled_contains_area (hc : 0 < g.ncols)
+    (fill : Nat → Nat → (Nat → Nat → Bool) → (Nat → Nat → Bool))
+    (hfill : ∀ nr nc (m : Nat → Nat → Bool) r c, m r c = true → fill nr nc m r c = true)
+    {o nval : Int} {inlets A : List Int} (h : delineateArea codes g o inlets nval = .ok A) :
+    ∀ a ∈ A, a ∈ areaFilled g fill A :=
+  mem_areaFilled hc fill hfill A (delineate_cells_valid hc h)
+
+/-- nothing drains to the outlet: the filled area is empty too -/
+theorem filled_empty (fill : Nat → Nat → (Nat → Nat → Bool) → (Nat → Nat → Bool)) :
+    areaFilled g fill [] = [] := rfl
+
+
+/-! ### 4. river traces and flow-path lengths follow the downstream chain: 1 per orthogonal step, √2 per diagonal step
+
+Lengths are stated over any commutative ring `α` with a function `sqrt` such that `sqrt 1 = 1` (and
+`sqrt 0 = 0` for the first river row) — `ℝ` with `Real.sqrt`, and what IEEE `sqrt` does on 0 and 1;
+`sqrt (1+1)` is `√2`. `chainCell i c` is the cell `i` steps down the chain from `c`, `chainSteps … i c` the
+classification (diagonal or not) of its first `i` steps (`Lemmas/C06.lean`). -/
+
+section Lengths
+variable {α : Type} [CommRing α] [Transc α]
+
+/-- **a step of the chain is Euclidean**: between two cells of the grid it changes row and column by at
+most one, and its squared length is 2 exactly when it is classified diagonal, else 1 -/
+theorem chain_step_euclidean {c : Int} (h0 : 0 ≤ downstreamCell codes g c) :
+    (colOf g.ncols c - colOf g.ncols (downstreamCell codes g c)) ^ 2 +
+      (rowOf g.ncols c - rowOf g.ncols (downstreamCell codes g c)) ^ 2 =
+    if isDiag g.ncols c (downstreamCell codes g c) then 2 else 1 :=
+  step_sqdist tableOK h0
+
+/-- **length = #orthogonal steps + √2 · #diagonal steps**, whatever the order of the steps -/
+theorem length_eq_orth_plus_sqrt2_diag (hs1 : Transc.sqrt (1 : α) = 1) (steps : List Bool) :
+    (pathLength steps : α) =
+      ((steps.count false : Nat) : α) + ((steps.count true : Nat) : α) * Transc.sqrt (1 + 1) :=
+  pathLength_eq_counts hs1 steps
+
+/-- **flow-path length**: for a start cell whose downstream chain first meets the outlet after `k+1` steps,
+`k+1` smaller than the number of cells handed to the kernel, the reported end cell is the outlet, the steps
+added up are exactly the `k+1` steps of the chain, and the length is `#orth + √2·#diag` of those steps -/
+theorem flowpath_length (hs1 : Transc.sqrt (1 : α) = 1) {start outlet : Int} {k nval : Nat}
+    (hw : Reaches codes g [] (k + 1) start outlet)
+    (hfirst : ∀ j, 1 ≤ j → j ≤ k → ¬ Reaches codes g [] j start outlet)
+    (hk : k + 1 < nval) :
+    (flowPath codes g outlet nval start).1 = outlet ∧
+    (flowPath codes g outlet nval start).2 = chainSteps codes g (isDiag g.ncols) (k + 1) start ∧
+    chainCell codes g (k + 1) start = outlet ∧
+    (pathLength (flowPath codes g outlet nval start).2 : α) =
+      (((chainSteps codes g (isDiag g.ncols) (k + 1) start).count false : Nat) : α) +
+      (((chainSteps codes g (isDiag g.ncols) (k + 1) start).count true : Nat) : α) * Transc.sqrt (1 + 1) := by
+  have h := flowPathWith_reach (g := g) tableOK (isDiag g.ncols) hw hfirst hk
+  unfold flowPath
+  rw [h]
+  exact ⟨rfl, rfl, (walk_chainCell tableOK k start outlet hw).1, pathLength_eq_counts hs1 _⟩
+
+/-- **river trace**: the cells are the downstream chain from the start cell and the distance in row `i` is
+the length of the first `i` steps of that chain -/
+theorem river_trace (hs0 : Transc.sqrt (0 : α) = 0) {start nval : Int} {rows : List (RiverRow α)}
+    (h : delineateRiver codes g start nval = .ok rows) :
+    rows.map (·.cell) = chainCells codes g nval.toNat start ∧
+    rows.map (·.dist) = (List.range rows.length).map
+      (fun i => pathLength (chainSteps codes g (isDiag g.ncols) i start)) := by
+  unfold delineateRiver at h
+  split at h
+  · cases h
+    refine ⟨river_cells _ _ _ _ _, ?_⟩
+    have := river_dists (α := α) (g := g) tableOK nval.toNat start [] 0 0 0
+      (by unfold hypot; simp [hs0, pathLength_nil])
+    simpa using this
+  · cases h
+
+/-- the river cells: entry `i` is the cell `i` steps down the chain; there are at most `nval` of them; every
+cell but the last drains to a cell of the grid; the trace stops before `nval` only at a sink / exit -/
+theorem river_cells_are_chain (n : Nat) (c : Int) :
+    (chainCells codes g n c).length ≤ n ∧
+    (∀ i, i < (chainCells codes g n c).length →
+      (chainCells codes g n c)[i]? = some (chainCell codes g i c) ∧
+      (i + 1 < (chainCells codes g n c).length → 0 ≤ downstreamCell codes g (chainCell codes g i c))) ∧
+    ((chainCells codes g n c).length < n →
+      downstreamCell codes g (chainCell codes g ((chainCells codes g n c).length - 1) c) < 0) :=
+  chainCells_spec n c
+
+/-- a start cell off the grid is rejected -/
+theorem river_guard (start nval : Int) (hv : validCell g.nrows g.ncols start = false) :
+    (delineateRiver codes g start nval : Except Err (List (RiverRow α))) = .error .badCell := by
+  unfold delineateRiver; simp [hv]
+
+end Lengths
+
+/-- **the defect of the pinned kernel, as a theorem**: on a 2-column grid the step from column 1 of a row to
+column 0 of the next row (south-west) is diagonal, but the pinned classification `|Δidx| == 1 || == ncols`
+calls it orthogonal (length 1 instead of √2) -/
+theorem pinned_step_misclassified (r : Int) (hr : 0 ≤ r) :
+    isDiag 2 (r * 2 + 1) ((r + 1) * 2 + 0) = true ∧ isDiagPinned 2 (r * 2 + 1) ((r + 1) * 2 + 0) = false := by
+  have c1 : colOf 2 (r * 2 + 1) = 1 := colOf_cellOf (ncols := 2) (row := r) (col := 1) hr (by omega) (by omega)
+  have c2 : colOf 2 ((r + 1) * 2 + 0) = 0 :=
+    colOf_cellOf (ncols := 2) (row := r + 1) (col := 0) (by omega) (by omega) (by omega)
+  have r1 : rowOf 2 (r * 2 + 1) = r := rowOf_cellOf (ncols := 2) (row := r) (col := 1) hr (by omega) (by omega)
+  have r2 : rowOf 2 ((r + 1) * 2 + 0) = r + 1 :=
+    rowOf_cellOf (ncols := 2) (row := r + 1) (col := 0) (by omega) (by omega) (by omega)
+  constructor
+  · unfold isDiag; rw [c1, c2, r1, r2]; simp
+  · unfold isDiagPinned
+    have : (r + 1) * 2 + 0 - (r * 2 + 1) = 1 := by omega
+    rw [this]; simp
+
+/-! ### non-vacuity: the hypotheses above are met by concrete grids -/
+
+/-- the 2x2 grid of the finding: cell 1 flows south-west to cell 2, everything else is a sink -/
+def exGrid : FlowGrid := { nrows := 2, ncols := 2, fd := fun i => if i = 1 then 8 else 0 }
+/-- a 1x2 grid whose two cells drain into each other -/
+def exCycle : FlowGrid := { nrows := 1, ncols := 2, fd := fun i => if i = 0 then 1 else 16 }
+
+example : upstream codes exGrid 2 = .ok [1] ∧ downstream codes exGrid 1 = .ok 2 ∧
+    downstream codes exGrid 0 = .ok (-2) ∧ downstream codes exGrid 4 = .error .badCell := by decide
+example : delineateArea codes exGrid 2 [] 10 = .ok [1, 2] := by decide
+example : delineateArea codes exGrid 2 [1] 10 = .ok [] := by decide
+example : Reaches codes exGrid [] 1 1 2 := by unfold Reaches; decide
+example : flowPath codes exGrid 2 2 1 = (2, [true]) := by decide
+example : flowPathWith codes exGrid 2 (isDiagPinned 2) 2 1 = (2, [false]) := by decide
+example : Reaches codes exCycle [] 2 0 0 := by unfold Reaches; decide
+example : delineateArea codes exCycle 0 [] 7 = .error .areaFull := by decide
+example : chainCells codes exGrid 5 1 = [1, 2] ∧ chainSteps codes exGrid (isDiag 2) 1 1 = [true] := by decide
+
 end HydroVerif.C06
